@@ -584,11 +584,36 @@ fn run_child(args: &[String], timeout: Duration) -> ChildOut {
         let _ = out.read_to_string(&mut s);
         s
     });
+    // A child that is still running at the deadline is a hang - unless the machine is so loaded that it simply has not
+    // been given the processor: the deadline is extended (at most 6 times) while the child has consumed less CPU time
+    // than a healthy child needs in total.  A deadlocked child sleeps (no CPU time at all since long before the
+    // deadline), a live-locked one burns far more than that.
+    let cpu_secs = |pid: u32| -> f64 {
+        std::fs::read_to_string(format!("/proc/{pid}/stat"))
+            .ok()
+            .and_then(|t| {
+                let rest = t.rsplit_once(')')?.1.to_string();
+                let f: Vec<&str> = rest.split_whitespace().collect();
+                Some((f.get(11)?.parse::<f64>().ok()? + f.get(12)?.parse::<f64>().ok()?) / 100.0)
+            })
+            .unwrap_or(f64::MAX)
+    };
+    let mut deadline = timeout;
+    let mut extensions = 0;
     let status = loop {
         match ch.try_wait().unwrap() {
             Some(st) => break if st.success() { "ok".to_string() } else { format!("exit-{}", st.code().unwrap_or(-1)) },
             None => {
-                if start.elapsed() > timeout {
+                if start.elapsed() > deadline {
+                    let used = cpu_secs(ch.id());
+                    let before = used;
+                    std::thread::sleep(Duration::from_millis(1500));
+                    let progressing = cpu_secs(ch.id()) > before + 0.05;
+                    if extensions < 6 && used < 20.0 && progressing {
+                        extensions += 1;
+                        deadline += timeout;
+                        continue;
+                    }
                     let _ = ch.kill();
                     let _ = ch.wait();
                     break "hang".to_string();
